@@ -593,11 +593,11 @@ var (
 	_ = sm9KexOp("sm9-kex-respond", true)
 )
 
-func TestC12_SM9Sign(t *testing.T) { runFamily(t, "sm9sign", 400, 8000, "sm9-sign") }
-func TestC12_SM9Wrap(t *testing.T) { runFamily(t, "sm9wrap", 500, 10000, "sm9-wrapkey", "sm9-encrypt") }
+func TestC12_SM9Sign(t *testing.T) { runFamily(t, "sm9sign", 600, 9000, "sm9-sign") }
+func TestC12_SM9Wrap(t *testing.T) { runFamily(t, "sm9wrap", 800, 12000, "sm9-wrapkey", "sm9-encrypt") }
 func TestC12_SM9MasterKey(t *testing.T) {
-	runFamily(t, "sm9master", 600, 12000, "sm9-sign-masterkey", "sm9-encrypt-masterkey")
+	runFamily(t, "sm9master", 1500, 20000, "sm9-sign-masterkey", "sm9-encrypt-masterkey")
 }
 func TestC12_SM9KeyExchange(t *testing.T) {
-	runFamily(t, "sm9kex", 500, 10000, "sm9-kex-init", "sm9-kex-respond")
+	runFamily(t, "sm9kex", 700, 10000, "sm9-kex-init", "sm9-kex-respond")
 }
